@@ -363,3 +363,26 @@ package expand
 //@ trusted
 //@ returns (fields, err)
 //@ ensures [no-words-no-fields] implies(len(words) == 0, len(fields) == 0)
+
+// ---- C28: parameter expansion (expand/param.go). No index, slice, division, type assertion or panic in paramExp: the
+// two panics it had ("should never happen" after Quote, and an unknown @ operator) were reachable and are now errors;
+// the character positions of ${var:offset:length} are clamped by the closure below. ----
+//@ func Config.paramExp$3
+//@ props C28
+//@ ensures [clamped] 0 <= result && result <= len(*rs)
+//@ pure
+// (the joining closure and what it calls only read: the variables it captures stay locals of paramExp)
+//@ func nodeLit
+//@ props C28
+//@ pure
+//@ func Config.ifsJoin
+//@ props C28
+//@ pure
+//@ func Config.paramExp$2
+//@ props C28
+//@ pure
+//@ func Config.paramExp
+//@ props C28
+//@ requires [ast] pe != nil
+// (ghost variables updated at the call sites of this function; everything else it may write is not framed)
+//@ modifies heap, arClock, arRhs, arRhsErr, arRhsTime
